@@ -143,6 +143,8 @@ type Expect struct {
 	EditedComment []bool
 	// counters showing what the sequence exercised
 	EffectiveEdits, IneffectiveEdits, MetaSet, MetaRefused, MetaNoTarget int
+	// MetaEmptyKept: a later set-metadata met a key whose existing value is the empty string (first value wins, empty included)
+	MetaEmptyKept, MetaEmptySet int
 }
 
 // Interpret is the reference interpreter, written from the statement of C10:
@@ -226,11 +228,17 @@ func Interpret(ops []opData) Expect {
 				}
 				sort.Strings(keys)
 				for _, k := range keys {
-					if _, exists := e.Meta[ti][k]; !exists {
+					if old, exists := e.Meta[ti][k]; !exists {
 						e.Meta[ti][k] = op.newMeta[k]
 						e.MetaSet++
+						if op.newMeta[k] == "" {
+							e.MetaEmptySet++
+						}
 					} else {
 						e.MetaRefused++
+						if old == "" {
+							e.MetaEmptyKept++
+						}
 					}
 				}
 			} else {
